@@ -99,7 +99,7 @@ func build(path []partlib.Op) (*wld, string, string) {
 			// B goes on (applies the rest and snapshots again) while the first snapshot's bytes are still in use - the log
 			// store keeps them and the raft message that carries them is marshalled later: they must stay what they were
 			keep := append([]byte{}, snap...)
-			if _, k, d := applyAll(b, path, entries, c, "B"); k != "" {
+			if _, k, d := applyAll(b, path[:c+1], entries[:c+1], c, "B"); k != "" { // one more entry is enough to change the contents
 				return w, k, d
 			}
 			if _, err := b.P.Snapshot(); err != nil {
@@ -158,6 +158,7 @@ type result struct {
 
 const c06Keys = `^isolation-`
 const c03Keys = `^(acknowledged-write-lost|recovered-contents-match-no-prefix|wrong-outcome)$`
+const c05Keys = `^(replicas-apply-different-entries|replicas-do-not-converge|applied-entry-never-proposed)$`
 
 func main() {
 	world.Quiet()
@@ -167,6 +168,8 @@ func main() {
 			ev.ReplayPart("C04", os.Getenv("VERIF_BIN_C06"), c06Keys, os.Args[2], "VERIF_PART_PHASES=groups")
 		case "C03":
 			ev.ReplayPart("C04", os.Getenv("VERIF_BIN_C03"), c03Keys, os.Args[2], "VERIF_PART_MODE=replicas", "VERIF_TUNABLE_snapshotOffset=0")
+		case "C05":
+			ev.ReplayPart("C04", os.Getenv("VERIF_BIN_C05"), c05Keys, os.Args[2], "VERIF_PART_MODE=directed", "VERIF_TUNABLE_snapshotOffset=0")
 		}
 		var f struct {
 			Replay struct {
@@ -188,7 +191,7 @@ func main() {
 		return
 	}
 	thorough := os.Getenv("VERIF_TIER") == "thorough"
-	depth, budget := 4, 100*time.Second
+	depth, budget := 4, 130*time.Second
 	if thorough {
 		depth, budget = 5, 25*time.Minute
 	}
@@ -264,6 +267,10 @@ func main() {
 	// the same comparison on replicas fed by the real raft ready loop (three replicas, local snapshots, a lagging follower
 	// that installs a snapshot, crash + restart + replay): C03's three-replica histories, counted here for what a replica holds
 	run.RunPart("raft-fed-replicas-C03", os.Getenv("VERIF_BIN_C03"), c03Keys, "VERIF_PART_MODE=replicas", "VERIF_TUNABLE_snapshotOffset=0")
+	// what the glue hands to the state machine, in which order: C05's directed lagging-follower histories (a snapshot that is
+	// lost, slow, interrupted by a crash, or arrives together with the appends behind it), counted here for replicas that end
+	// up having applied different things
+	run.RunPart("lagging-follower-C05", os.Getenv("VERIF_BIN_C05"), c05Keys, "VERIF_PART_MODE=directed", "VERIF_TUNABLE_snapshotOffset=0")
 	run.Assumptions = []string{
 		"the C02 alphabet (ids {a,b,c}, 3 vectors, 5 metadata shapes, single and batch forms); entries are marshalled once and fed byte-identically to every replica",
 		"graph shape is not compared (legitimately order dependent); contents, counters and per-entry outcomes are",
